@@ -50,14 +50,16 @@ def _own_len(tag, bits=3):
     return pt, f"LEN_{tag}"
 
 
-def _dyn_kind(name, family, charset=None, use_cal=False, slope=8, intercept=0, term=None, lead=None, core=False, no_adjust=False, cal_factor=2.0):
+def _dyn_kind(name, family, charset=None, use_cal=False, slope=8, intercept=0, term=None, lead=None, core=False, no_adjust=False, cal_factor=2.0, signed_ref=False):
     def build(tag, ctx):
         pts, fields = [], []
-        ref = (ctx.get("ref_cal") if cal_factor == 2.0 else None) if use_cal else ctx.get("ref_raw")
+        ref = (ctx.get("ref_cal") if cal_factor == 2.0 else None) if use_cal else (None if signed_ref else ctx.get("ref_raw"))
         if ref is None:
             if use_cal:
                 lpt = PType(f"LENC_T_{tag}", "Integer", IntEnc(3, default_cal=Poly(((cal_factor, 1),))))
                 ref = f"LENC_{tag}"
+            elif signed_ref:
+                lpt, ref = PType(f"LENS_T_{tag}", "Integer", IntEnc(3, "twosComplement")), f"LENS_{tag}"
             else:
                 lpt, ref = _own_len(tag)
             pts.append(lpt)
@@ -208,6 +210,8 @@ def palette():
           _dyn_kind("bin-dyn(calibrated ref, x8)", "bin", use_cal=True),
           _dyn_kind("bin-dyn(calibrated ref, no adjustment)", "bin", use_cal=True, no_adjust=True),
           _dyn_kind("bin-dyn(raw ref, x1+3)", "bin", slope=1, intercept=3),
+          # a signed length reference (-4..3) with an intercept that keeps every length at or above 0 bits
+          _dyn_kind("bin-dyn(signed raw ref, x8+32)", "bin", slope=8, intercept=32, signed_ref=True),
           # the calibrated length is a multiple of one half; the adjustment multiplies it by 16 (always a whole number of bits) / by 8 plus 4
           _dyn_kind("bin-dyn(calibrated ref in halves, x16)", "bin", use_cal=True, slope=16, cal_factor=0.5),
           _dyn_kind("str-dyn(calibrated ref in halves, x8+4)-latin1", "str", "ISO-8859-1", use_cal=True, slope=8, intercept=4, cal_factor=0.5),
